@@ -12,6 +12,7 @@ from .metadata import MetaData
 from .readcoderaggedarray import readcode, readcodefunc, \
     shapeindexexplanationtextraggedarray
 from .utils import wrap, product
+from .numtype import numtypesdescr
 
 __all__ = ['RaggedArray', 'asraggedarray', 'create_raggedarray',
            'delete_raggedarray', 'truncate_raggedarray']
@@ -498,9 +499,11 @@ def asraggedarray(path, arrayiterable, dtype=None, metadata=None,
                          f'{supportedindextypes}')
     if not hasattr(arrayiterable, 'next'):
         arrayiterable = (a for a in arrayiterable)
-    bd = create_datadir(path=path, overwrite=overwrite)
     firstarray = np.asarray(next(arrayiterable), dtype=dtype)
     dtype = firstarray.dtype
+    if dtype.name not in numtypesdescr.keys():  # before creating anything
+        raise TypeError(f"darr cannot have type '{dtype.name}'")
+    bd = create_datadir(path=path, overwrite=overwrite)
     valuespath = bd.path.joinpath(RaggedArray._valuesdirname)
     indicespath = bd.path.joinpath(RaggedArray._indicesdirname)
     valuesda = asarray(path=valuespath, array=firstarray, dtype=dtype,
